@@ -11,7 +11,7 @@ import os
 
 import numpy as np
 
-from ..kernel import adigest, sdigest
+from ..kernel import adigest, sdigest, HarnessBug
 from ..refs import rectab as T
 from .. import present
 from .recplan import plan, simplify, describe  # noqa: F401  (engine interface)
@@ -1133,7 +1133,10 @@ def _do_select(w, h, m, sel, mods):
     """perform a selection through handle h (or a convenience reader when h is None)."""
     style = sel.get("style", "read_kw")
     rows, cols = sel.get("rows"), sel.get("cols")
-    ra, ca = _rows_arg(rows), _cols_arg(cols)
+    try:
+        ra, ca = _rows_arg(rows), _cols_arg(cols)
+    except Exception as e:
+        raise HarnessBug("cannot build the selection arguments: %r" % (e,))
     obj = h["obj"] if h is not None else None
     is_sf = h is not None and h["kind"] == "SFile"
     if style in ("read_kw", "read_fields", "split", "reduce"):
@@ -1175,7 +1178,10 @@ def _do_select(w, h, m, sel, mods):
 def _conv_select(w, m, p, sel, mods, entry):
     sfile, recfile, eio = mods["sfile"], mods["recfile"], mods["io"]
     rows, cols = sel.get("rows"), sel.get("cols")
-    ra, ca = _rows_arg(rows), _cols_arg(cols)
+    try:
+        ra, ca = _rows_arg(rows), _cols_arg(cols)
+    except Exception as e:
+        raise HarnessBug("cannot build the selection arguments: %r" % (e,))
     if isinstance(ra, slice):
         raise Skip("keyword reads take row numbers")
     kw = {}
@@ -1302,7 +1308,7 @@ def op_hread(w, op, mods):
     run.states.add(st)
     try:
         got = _do_select(w, h, m, sel, mods) if h is not None else _conv_select(w, m, p, sel, mods, entry)
-    except Skip:
+    except (Skip, HarnessBug):
         raise
     except Exception as e:
         run.trans.add(tr + "|error")
